@@ -3,6 +3,7 @@ from .. RDkitWrapper.ReactionQuery import ReactionQuery, BondForm, \
     BondIncrease, BondDecrease, BondModify, AtomTypeModify, BondBreak,\
     RadicalModify, RadicalIncrease, RadicalDecrease, ChargeIncrease, \
     ChargeDecrease
+from .. RDkitWrapper.MolQuery import AtomRadical
 from .MolQueryRead import MolQueryReader
 from rdkit import Chem
 
@@ -297,14 +298,32 @@ class ReactionQueryReader(object):
                                                             charge,
                                                             valence))
 
+    def DeclaredRadical(self, molquery, idx_in_query):
+        # Number of radical electrons the reactant pattern declares for the
+        # atom (suffix, or 'has =n radical electrons'); None if left open.
+        # The RDKit query atom itself always carries 0.
+        for constraint in molquery.atom_constraints.get(idx_in_query, []):
+            if isinstance(constraint, AtomRadical) and not constraint.negate\
+                    and constraint.CN.operator == '=':
+                return constraint.CN.n
+        return None
+
     def ReadRadicalModify(self, tree, reactionquery):
         assert tree[0][0] == 'AtomLabel'
-        _, idx, _, _, atom = self.ReadAtomLabel(tree[0][1:], reactionquery)
+        _, idx, reactant_name, idx_in_query, atom = self.ReadAtomLabel(
+            tree[0][1:], reactionquery)
         radical = tree[1]
         if radical < 0:
             raise RINGReaderError("RadicalModify: Number of radical",
                                   "electrons cannot be below 0")
-        self.electronbalance[idx] -= radical - atom.GetNumRadicalElectrons()
+        declared = self.DeclaredRadical(
+            reactionquery.reactantquery[reactant_name], idx_in_query)
+        if declared is None:
+            raise RINGReaderError("RadicalModify: the reactant pattern leaves",
+                                  "the number of radical electrons of '"
+                                  + tree[0][1] + "' open; the electron",
+                                  "balance cannot be checked")
+        self.electronbalance[idx] -= radical - declared
         reactionquery.transformations.append(RadicalModify(idx, radical))
 
     def ReadRadicalIncrease(self, tree, reactionquery):
